@@ -396,14 +396,15 @@ func (e *kvElection) attemptAcquire() error {
 // adopted. It should not when the instance already leads with a newer record
 // of its own: answers can arrive out of order, and the older write is history.
 func (e *kvElection) endSupersededTerm(rev uint64) bool {
-	if !e.IsLeader() {
-		return true
-	}
-	if rev <= e.revision.Load() {
-		return false
-	}
-	if e.becomeFollower() {
-		e.notifyDemoted("superseded_by_own_reacquisition")
+	// Re-evaluated after every OnDemote: the callback may take long, and another
+	// acquisition of this instance may have started a newer term meanwhile.
+	for e.IsLeader() {
+		if rev <= e.revision.Load() {
+			return false
+		}
+		if e.becomeFollower() {
+			e.notifyDemoted("superseded_by_own_reacquisition")
+		}
 	}
 	return true
 }
